@@ -38,6 +38,9 @@ func (c *Conn) handleIdle(dec *imapwire.Decoder) error {
 	c.setReadTimeout(idleReadTimeout)
 	line, isPrefix, err := c.br.ReadLine()
 	close(stop)
+	// Always wait for Session.Idle to return: the session must not be used
+	// anymore once this command completes (it may be closed right after)
+	idleErr := <-done
 	if err == io.EOF {
 		return nil
 	} else if err != nil {
@@ -46,5 +49,5 @@ func (c *Conn) handleIdle(dec *imapwire.Decoder) error {
 		return newClientBugError("Syntax error: expected DONE to end IDLE command")
 	}
 
-	return <-done
+	return idleErr
 }
